@@ -54,6 +54,13 @@ def main():
                             name = "%s-%s" % (commit[:7], f)
                             json.dump(d, open(os.path.join(dst, name), "w"), indent=1)
                             kept.append(name)
+            # a saved case is only worth keeping if replaying it (repair still taken out) fails again
+            for name in list(kept):
+                rr = subprocess.run([os.path.join(VERIF, "check"), prop, "quick", "--replay", os.path.join(VERIF, "regress", prop, name)], cwd=VERIF, env=env, capture_output=True, text=True)
+                if rr.returncode != 1:
+                    os.unlink(os.path.join(VERIF, "regress", prop, name))
+                    kept.remove(name)
+                    print("   dropped %s: replaying it gives exit %d (%s)" % (name, rr.returncode, "no JSON replay for this test" if rr.returncode == 2 else "does not reproduce"))
             print("%s %s: exit %d %s kept=%s%s" % (prop, commit, pr.returncode, sigs[:3], kept, "" if b.stdout.strip() == "" else " BUILD: " + b.stdout.strip()[:200]))
             if pr.returncode not in (0, 1):
                 print(out[-1200:])
